@@ -124,3 +124,44 @@ Proof.
   eexists. split; [reflexivity|]. split; [reflexivity|].
   intros [[H|H] _]; cbn in H; discriminate.
 Qed.
+
+(* ---------------------------------------------------------------------------------------------
+   names *)
+Lemma eqb_text_true_iff : forall a b : text, eqb_text a b = true <-> a = b.
+Proof. exact eqb_text_spec. Qed.
+
+Lemma app_cons_neq : forall (l r : text) (c : N), l ++ c :: r <> l.
+Proof.
+  induction l as [|x l IH]; intros r c H.
+  - discriminate H.
+  - cbn [app] in H. inversion H as [H1]. exact (IH r c H1).
+Qed.
+
+Lemma tmp_bk_texts_differ : T_TMP <> T_BK.
+Proof. discriminate. Qed.
+
+Ltac by_stem H := apply (f_equal (@fst text (option text))) in H; cbn [fst] in H; exact (app_cons_neq _ _ _ H).
+Ltac by_ext H := apply (f_equal (@snd text (option text))) in H; cbn [snd] in H; discriminate H.
+
+Lemma backup_names_distinct_lemma : forall f : fname,
+  tmp_name f <> f /\ bk_name f <> f /\ tmp_name f <> bk_name f.
+Proof.
+  intros [stem ext]. unfold tmp_name, bk_name, collides, append_ext, with_extension, whole. cbn [fst snd].
+  destruct ext as [e|].
+  - destruct (eqb_text e T_TMP || eqb_text e T_BK) eqn:Hc.
+    + split; [|split]; intros H; [by_stem H | by_stem H | by_ext H].
+    + apply Bool.orb_false_iff in Hc. destruct Hc as [Ht Hb].
+      split; [|split]; intros H.
+      * apply (f_equal (@snd text (option text))) in H; cbn [snd] in H. injection H as H1. subst e. vm_compute in Ht. discriminate Ht.
+      * apply (f_equal (@snd text (option text))) in H; cbn [snd] in H. injection H as H1. subst e. vm_compute in Hb. discriminate Hb.
+      * by_ext H.
+  - split; [|split]; intros H; by_ext H.
+Qed.
+
+Lemma backup_names_pre_collide_lemma :
+  (exists f : fname, tmp_name_pre f = f) /\ (exists f : fname, bk_name_pre f = f).
+Proof. split; [exists ([97%N], Some T_TMP) | exists ([98%N], Some T_BK)]; reflexivity. Qed.
+
+Lemma backup_names_unchanged_lemma : forall f : fname, collides f = false ->
+  tmp_name f = tmp_name_pre f /\ bk_name f = bk_name_pre f.
+Proof. intros f H. unfold tmp_name, bk_name. rewrite H. split; reflexivity. Qed.
